@@ -59,12 +59,13 @@ impl TypeResolver {
     fn extract_result_ok_type(&self, rust_type: &str) -> Option<String> {
         if rust_type.starts_with("Result<") && rust_type.ends_with('>') {
             let inner = &rust_type[7..rust_type.len() - 1];
-            if let Some(comma_pos) = inner.find(',') {
-                let ok_type = inner[..comma_pos].trim();
-                Some(ok_type.to_string())
-            } else {
-                Some(inner.to_string())
-            }
+            // The ok type ends at the first comma that is not nested in <>, () or []
+            let ok_type = split_top_level_commas(inner)
+                .into_iter()
+                .next()
+                .unwrap_or(inner)
+                .trim();
+            Some(ok_type.to_string())
         } else {
             None
         }
@@ -127,7 +128,11 @@ impl TypeResolver {
             if inner.trim().is_empty() {
                 return Some(vec![]);
             }
-            let types: Vec<String> = inner.split(',').map(|s| s.trim().to_string()).collect();
+            let types: Vec<String> = split_top_level_commas(inner)
+                .into_iter()
+                .map(|s| s.trim().to_string())
+                .filter(|s| !s.is_empty())
+                .collect();
             Some(types)
         } else {
             None
@@ -143,20 +148,10 @@ impl TypeResolver {
 
     /// Parse two type parameters separated by comma (for HashMap, BTreeMap)
     fn parse_two_type_params(&self, inner: &str) -> Option<(String, String)> {
-        let mut depth = 0;
-        let mut comma_pos = None;
-
-        for (i, ch) in inner.char_indices() {
-            match ch {
-                '<' => depth += 1,
-                '>' => depth -= 1,
-                ',' if depth == 0 => {
-                    comma_pos = Some(i);
-                    break;
-                }
-                _ => {}
-            }
-        }
+        let comma_pos = split_top_level_commas(inner)
+            .first()
+            .map(|first| first.len())
+            .filter(|pos| *pos < inner.len());
 
         if let Some(pos) = comma_pos {
             let key_type = inner[..pos].trim().to_string();
@@ -272,6 +267,32 @@ impl TypeResolver {
                 .insert(rust_type.clone(), ts_type.clone());
         }
     }
+}
+
+/// Split a comma-separated list of type arguments at the commas that are not nested inside
+/// angle brackets, parentheses or square brackets, e.g. `HashMap<K, V>, (A, B)` has two parts.
+pub(crate) fn split_top_level_commas(input: &str) -> Vec<&str> {
+    let mut parts = Vec::new();
+    let mut depth = 0usize;
+    let mut start = 0;
+    let mut previous = '\0';
+
+    for (i, ch) in input.char_indices() {
+        match ch {
+            '<' | '(' | '[' => depth += 1,
+            // `->` in fn pointer types does not close a bracket
+            '>' if previous == '-' => {}
+            '>' | ')' | ']' => depth = depth.saturating_sub(1),
+            ',' if depth == 0 => {
+                parts.push(&input[start..i]);
+                start = i + 1;
+            }
+            _ => {}
+        }
+        previous = ch;
+    }
+    parts.push(&input[start..]);
+    parts
 }
 
 impl Default for TypeResolver {
